@@ -85,6 +85,25 @@ def make_doc(seed: int) -> tuple[dict, dict]:
     if r.random() < 0.5:
         g.ct_overrides = dict(CT_OVERRIDES)
     doc = g.document()
+    # two operations in DISJOINT tag sets whose distinct operationIds give the same module name ("op_xyz" / "opXyz"): each tag
+    # package holds its own op_xyz.py - legal, no diagnostics, and which text lands where must not depend on the order of paths
+    if r.random() < 0.25:
+        cands = [(p_, m_) for p_, it in doc["paths"].items() if isinstance(it, dict) for m_, o in it.items()
+                 if isinstance(o, dict) and re.fullmatch(r"op_[a-z]{3}", str(o.get("operationId") or ""))]
+        if cands:
+            p_, m_ = cands[r.randrange(len(cands))]
+            first = doc["paths"][p_][m_]
+            multi = r.random() < 0.6
+            first["tags"] = ["alpha-tag", "gamma_t"] if multi else ["alpha-tag"]
+            tok = first["operationId"][3:]
+            for it in doc["paths"].values():  # nobody else lives in the second one's packages
+                for o in it.values() if isinstance(it, dict) else []:
+                    if isinstance(o, dict) and o is not first and isinstance(o.get("tags"), list):
+                        o["tags"] = [t for t in o["tags"] if t not in ("Beta", "delta_t")] or ["alpha-tag"]
+            doc["paths"][f"/clash{tok}"] = {r.choice(["get", "post", "delete"]): {
+                "operationId": "op" + tok.capitalize(), "tags": ["Beta", "delta_t"] if multi else ["Beta"],
+                "parameters": [{"name": "clash_q", "in": "query", "required": True, "schema": {"type": "string"}}],
+                "responses": {"200": {"description": "ok"}}}}
     return doc, {"toggles": toggles, "version": g.version, "ct_overrides": getattr(g, "ct_overrides", None)}
 
 
@@ -236,7 +255,10 @@ def build_cells(seed: int, doc: dict, hashseeds: list[int], with_hooks: bool, ot
     # warm-process histories on interpreters that also have a cold cell
     for i in range(r.choice([1, 1, 2])):
         h = r.choice([hashseeds[0], *others])
-        hist = r.choice([["self"], ["other0"], ["other0", "self"], ["other1", "other0"], ["self", "self"]])
+        hist = r.choice([["self"], ["other0"], ["other0", "self"], ["other1", "other0"], ["self", "self"],
+                         # a long-lived process (a service, a build script looping over many documents): whatever is keyed by
+                         # object identity or otherwise accumulated has had many generations to pile up
+                         ["other0", "other1"] * 4, ["other1", "other0", "self"] * 3])
         hist_config = r.choice([None, {"content_type_overrides": CT_OVERRIDES_ALT}, {"content_type_overrides": CT_OVERRIDES_ALT, "literal_enums": True},
                                 {"field_prefix": "attr_", "use_path_prefixes_for_title_model_names": False}])
         names = sorted(((doc.get("components") or {}).get("schemas") or {}))
